@@ -54,3 +54,31 @@ Theorem C07_definition_scanners_are_the_source : forall s offset,
   g_fn_match_link_title s offset = fn_match_title s offset.
 Proof. intros. split; [apply fn_match_label_regen|]. split; [apply fn_match_dest_regen|apply fn_match_title_regen]. Qed.
 Print Assumptions C07_definition_scanners_are_the_source.
+
+(* ... down to the resolved link itself (Proofs/RefSentence.v): a shortcut reference [w] inside a sentence - text free of trigger
+   characters before, inside and after, w not blank, no "(" right after - tokenizes, under ANY footnote map that holds the
+   normalised label of w, to the text before, ONE Link holding w with the target and title the map returns, the text after: scanner,
+   bracket stack, label lookup, every span finder and the candidate tokenizer; and against the document's own map that is the
+   FIRST definition in document order - wherever it stands - whose label normalises to the same key (normalize_label: case-folded,
+   white space collapsed): the three clauses of the property on the link that comes out *)
+From Mistletoe Require Import Gen.GenConfig Model.Inline Proofs.EmphSentence Proofs.RefSentence.
+Theorem C07_reference_in_sentence : forall types fn pre w post dest title,
+  ref_spans types = true -> ref_ok pre w post = true -> fn_get (normalize_label w) fn = Some (dest, title) ->
+  tokenize_inner types fn (pre ++ [91%Z] ++ w ++ [93%Z] ++ post) = raw_if pre ++ [link_of w dest title] ++ raw_if post.
+Proof. exact reference_in_sentence. Qed.
+Print Assumptions C07_reference_in_sentence.
+
+Theorem C07_reference_resolves : forall cfg lines pre w post d,
+  ref_spans (cfg_span cfg) = true -> ref_ok pre w post = true ->
+  find (fun d => str_eqb (normalize_label (def_label d)) (normalize_label w)) (flat_map defs_of (fst (block_phase cfg lines))) = Some d ->
+  tokenize_inner (cfg_span cfg) (snd (block_phase cfg lines)) (pre ++ [91%Z] ++ w ++ [93%Z] ++ post) =
+  raw_if pre ++ [link_of w (fst (def_value d)) (snd (def_value d))] ++ raw_if post.
+Proof. exact reference_resolves. Qed.
+Print Assumptions C07_reference_resolves.
+
+Theorem C07_reference_hypotheses :
+  forallb (fun c => ref_spans (cfg_span c)) [cfg_html; cfg_html_nohtml; cfg_markdown; cfg_latex; cfg_mathjax; cfg_default] = true /\
+  (ref_ok ($"see ") ($"The  Label") ($", ok") = true /\ ref_ok ($"see ") ($"x") ($"(y)") = false /\ ref_ok [] ($"a*b") [] = false /\
+   normalize_label ($"The  Label") = normalize_label ($"the label")).
+Proof. split; [exact ref_configs|exact reference_instance]. Qed.
+Print Assumptions C07_reference_hypotheses.
